@@ -63,7 +63,7 @@ func (r *restoreOracle) State(c *explore.Ctx, w *world.World) {
 	}
 	var toggles []toggle
 	for _, a := range [][]byte{uni.A0, uni.B0, uni.C1} {
-		if !spec.Frozen(w.Get(a), "F") {
+		if !spec.Frozen(w.Get(a), tF) {
 			toggles = append(toggles, toggle{"freeze", uni.SysCall(a, vmcommon.BuiltInFunctionESDTFreeze, uni.F), uni.SysCall(a, vmcommon.BuiltInFunctionESDTUnFreeze, uni.F)})
 		}
 	}
@@ -134,8 +134,8 @@ func amountsProfile(property string, tier Tier) *explore.Profile {
 			return out
 		},
 		Menu: func(w *world.World) []world.Action {
-			hF := spec.Held(w.Get(a0), "F")
-			hS := spec.Held(w.Get(a0), "S\x01")
+			hF := spec.Held(w.Get(a0), tF)
+			hS := spec.Held(w.Get(a0), tS1)
 			amts := func(h *big.Int) [][]byte {
 				vals := []*big.Int{big.NewInt(0), big.NewInt(1), new(big.Int).Sub(h, big.NewInt(1)), h, new(big.Int).Add(h, big.NewInt(1)),
 					new(big.Int).Sub(two64, big.NewInt(1)), two64, new(big.Int).Add(two64, big.NewInt(1)), new(big.Int).SetBytes(maxBytes(100))}
@@ -178,7 +178,7 @@ func amountsProfile(property string, tier Tier) *explore.Profile {
 				f.ReturnAfterError = true
 				acts = append(acts, f)
 			}
-			if spec.Frozen(w.Get(a0), "F") {
+			if spec.Frozen(w.Get(a0), tF) {
 				acts = append(acts, uni.SysCall(a0, vmcommon.BuiltInFunctionESDTWipe, uni.F))
 			} else {
 				acts = append(acts, uni.SysCall(a0, vmcommon.BuiltInFunctionESDTFreeze, uni.F))
@@ -205,16 +205,16 @@ func highNonceProfile(name string, tier Tier, oracles []explore.Oracle, suffix i
 		Deadline: tierDeadline(tier), WithGhost: true, Workers: 4,
 		Oracles: append(append([]explore.Oracle{}, oracles...), scriptReached{}),
 		Menu: func(w *world.World) []world.Action {
-			hi := int64(w.Ghost.Highest["S"])
+			hi := int64(w.Ghost.Highest[tS])
 			if hi < target {
 				// a0 gives up its own (S,1) first: other accounts keep theirs, so that a key
 				// collision between nonce 1 and a multi-byte nonce has something to collide with
 				// on both the creating and the receiving side
-				if h := held(w, uni.A0, "S\x01"); h > 0 {
+				if h := held(w, uni.A0, tS1); h > 0 {
 					return []world.Action{uni.Call(uni.A0, uni.A0, vmcommon.BuiltInFunctionESDTNFTBurn, uni.S, uni.Big(1), uni.Big(h))}
 				}
 				// burn the latest one first unless it is one of the kept nonces
-				if hi > 2 && hi != 256 && held(w, uni.A0, "S"+spec.NonceSuffix(uint64(hi))) > 0 {
+				if hi > 2 && hi != 256 && held(w, uni.A0, tS+spec.NonceSuffix(uint64(hi))) > 0 {
 					return []world.Action{uni.Call(uni.A0, uni.A0, vmcommon.BuiltInFunctionESDTNFTBurn, uni.S, uni.Big(hi), uni.Big(2))}
 				}
 				return []world.Action{uni.Create(uni.A0, uni.S, 2)}
@@ -238,7 +238,7 @@ type scriptReached struct{}
 
 func (scriptReached) Leg(c *explore.Ctx, leg *world.Leg) {}
 func (scriptReached) State(c *explore.Ctx, w *world.World) {
-	if w.Ghost.Highest["S"] >= 257 {
+	if w.Ghost.Highest[tS] >= 257 {
 		c.Class("high-nonce-reached")
 	}
 }
